@@ -746,6 +746,7 @@ def incremental_rule(ctx):
 def run(ctx):
     from . import c05 as _c05
 
+    ctx.attempt(bounded_solve_rule, ctx)
     ctx.attempt(_c05.newton_loop_rule, ctx)
     ctx.level = "other"
     ctx.explanation = (
@@ -1052,3 +1053,60 @@ def connection_dofs_rule(ctx):
             r.fail(f.qualname, f"connection:{len(node_list)}:{'+'.join(unknowns)}", f.file, f.lineno, "Beam.add_connection", f"add_connection({tag}) with simulation unknowns {allu}: {bad}: the requested multi-point constraint is not the one applied")
         else:
             r.ok(f"{tag}: every node tied by name, {len(node_list) - 1} condition(s) per unknown")
+
+
+def bounded_solve_rule(ctx, rid="R4.15"):
+    """'for the damage-based solvers the damage never decreases' / 'the free degrees of freedom satisfy the assembled
+    equations ... to solver accuracy' under bounds: with the bounded backend (SolverType.lsq_linear) the vector `_Solve_Axb`
+    returns satisfies lb <= x <= ub COMPONENT BY COMPONENT.  The function is interpreted with two stand-in backends: the
+    unconstrained direct solve returns a vector that violates the lower bound of one dof while its extrema lie inside the
+    extrema of the bounds (the situation after energy moves from one zone to another), the bounded solver a vector inside
+    the bounds; the result must be the bounded solver's, called with the full per-dof bounds."""
+    from ..xeval import EnumVal
+    from ..xarray import XArray
+
+    repo = ctx.repo
+    mod = repo.module(SOLV)
+    f = mod.functions["_Solve_Axb"]
+    st_cls = repo.cls(SOLV + ".SolverType")
+    members = repo.enum_members(SOLV + ".SolverType")
+    r = ctx.rule(rid, "bounded backend: the vector returned for SolverType.lsq_linear is the bounded solver's (called with the per-dof bounds) - lb <= x <= ub holds component by component, also when the unconstrained solution lies between the extrema of the bounds", min_instances=1)
+    r.instance(fn=f.qualname)
+    lb = XArray((3,), [Q(1, 5), Q(0), Q(1, 10)])
+    ub = XArray((3,), [Q(1), Q(1), Q(1)])
+    x_free = XArray((3,), [Q(1, 10), Q(3, 10), Q(1, 2)])  # violates lb[0] = 1/5; min = 1/10 >= min(lb) = 0, max = 1/2 <= max(ub)
+    x_bounded = XArray((3,), [Q(1, 5), Q(3, 10), Q(1, 2)])
+    seen = {}
+
+    def hook(fn, args, kwargs):
+        if isinstance(fn, Opaque):
+            tail = fn.tag.split(".")[-1]
+            if tail == "csr_matrix":
+                return args[0]
+            if tail == "spsolve":
+                return XArray(x_free.shape, list(x_free.data))
+            if tail == "lsq_linear":
+                seen["bounds"] = kwargs.get("bounds", args[2] if len(args) > 2 else None)
+                return {"x": XArray(x_bounded.shape, list(x_bounded.data))}
+            if tail == "norm":
+                return 0
+        return NotImplemented
+
+    sel = EnumVal(st_cls, "lsq_linear", members["lsq_linear"])
+    A = SimpleNamespace(has_canonical_format=True, shape=(3, 3))
+    simu = SimpleNamespace(Bc_Lagrange=[], solver=sel, _verbosity=False, _Solver_Get_PETSc4Py_Options=lambda pt=None: ("cg", "none", "petsc"))
+    I = Interp(repo, extra_builtins={"MPI_SIZE": 1, "Tic": lambda *a, **k: Sink(), "CAN_USE_PYPARDISO": False, "CAN_USE_PETSC": False, "isinstance": lambda o, t: True})
+    I.call_hook = hook
+    try:
+        out = XArray.from_nested(I.call_function(f, [simu, Opaque("pt"), A, SimpleNamespace(toarray=lambda: XArray((3,), [Q(0)] * 3)), Opaque("x0"), lb, ub]))
+    except XRaise as e:
+        r.fail(f.qualname, "bounded", f.file, f.lineno, "_Solve_Axb", f"SolverType.lsq_linear: raises {e}")
+        return
+    got = list(out.data)
+    viol = [k for k in range(3) if not (lb.data[k] <= got[k] <= ub.data[k])]
+    b = seen.get("bounds")
+    bounds_ok = isinstance(b, (tuple, list)) and len(b) == 2 and list(XArray.from_nested(b[0]).data) == list(lb.data) and list(XArray.from_nested(b[1]).data) == list(ub.data)
+    if not viol and got == list(x_bounded.data) and bounds_ok:
+        r.ok("lsq_linear: the bounded solution is returned, solver called with the per-dof bounds")
+    else:
+        r.fail(f.qualname, "bounded", f.file, f.lineno, "_Solve_Axb", f"SolverType.lsq_linear with lb = {[str(v) for v in lb.data]}: the vector returned is {[str(v) for v in got]}" + (f", below its lower bound at dof(s) {viol}" if viol else "") + ("" if bounds_ok else "; the bounded solver did not receive the per-dof bounds") + ": an unconstrained solution is accepted on a test of global extrema - the irreversibility bound d >= d_previous is dropped where the damage is low and the damage heals there")
